@@ -92,6 +92,39 @@ def scenario(tier):
     return fn
 
 
+def through_a_link(b, sym):
+    """the sealed folder is reached through a symbolic link (a mounted card linked into a project folder): info and info -sf report
+    what the manifests hold, exactly as through the real path"""
+    b.mkfile("EXT/card/clip.mov", 1)
+    b.mkfile("EXT/card/sub/b.txt", 2)
+    for fm in (["md5"], ["xxh64", "c4"]):
+        r = b.run("create", root="EXT/card", h=fm)
+        b.require(r.exit == 0, "setup-create", str(r))
+    b.symlink("EXT/card", "P/linked card")
+    via = sym.choose("path_given_through", ["the link", "the real folder"])
+    root = "P/linked card" if via == "the link" else "EXT/card"
+    target = posixpath.join(root, sym.choose("file", ["clip.mov", "sub/b.txt"]))
+    r = b.run("info", root=root)
+    b.require(r.exit == 0 and r.exc is None, "info-exit-0", "%s: %s" % (via, r))
+    blocks = parse_info(b, r)
+    b.require(len(blocks) == 1 and [g for g, _ in list(blocks.values())[0]] == [1, 2], "info-generations", "%s: %s" % (via, blocks))
+    for explicit in (False, True):
+        r = b.run("info", root=root if explicit else None, sf=[target])
+        b.require(r.exit == 0 and r.exc is None, "info-sf-exit-0", "%s through %s explicit=%s: %s" % (target, via, explicit, r))
+        lines = [l for l in r.out if GEN_RE.match(l)]
+        want = []
+        for m in b.manifests("EXT/card"):
+            rec = m.record(cm.rel_to(target, root))
+            for e in (rec.entries if rec is not None else []):
+                want.append((int(m.file[:4]), e.fmt, e.digest, e.action))
+        b.require(len(lines) == len(want), "info-sf-one-line-per-digest", "%s through %s: %d lines, %d digests recorded" % (target, via, len(lines), len(want)))
+        for l, w in zip(lines, want):
+            mm = GEN_RE.match(l)
+            b.require(int(mm.group(1)) == w[0] and mm.group(3).startswith(" %s: " % w[1]), "info-sf-format-action", "%r vs %s" % (l, w[:2]))
+            ds = b.digests_in(mm.group(3))
+            b.require(len(ds) >= 1 and truth(ds[0] == w[2]), "info-sf-digest", "%r" % l)
+
+
 def long_history(b, sym):
     b.mkfile("R/a.txt", 1)
     b.mkfile("R/d/b.txt", 2)
@@ -110,6 +143,10 @@ def long_history(b, sym):
 def harnesses(tier):
     return [Harness("c19-long", long_history, frontier=2, budget_s=600, what="9-12 generations: info and info -sf list them in ascending numeric order",
                     bounds={"generations": "9-12"}, outside=[]),
+            Harness("c19-linked", through_a_link, frontier=3, budget_s=600, conformance=8,
+                    what="a sealed folder reached through a symbolic link: info and info -sf (root searched upwards / given) list what the manifests hold",
+                    bounds={"files": 2, "generations": 2}, outside=["links inside the sealed tree"],
+                    stubs=["symbolic links in the modelled file system: link nodes, resolution of every path component, lexical abspath / resolving realpath"]),
             Harness("c19-info", scenario(tier), frontier=6, budget_s=2400,
                     what="histories built by real creates (flat / nested layouts, 1-3 root generations, changing formats, failed entries, -sf "
                          "generations); info on the folder and info -sf on every file (root found by upward search and given explicitly) compared "
